@@ -534,6 +534,34 @@ def run(ctx: Any, prog: Program) -> None:
                 ctx.check('C03.K8', ok, None, None, 'Cython tokenizer: chunk cursor written outside __init__/_next_char other than by `self.char_index -= 1`',
                           file=pyx.relpath, func=q, text=ln.text)
 
+    # refill transparency (Cython): the object taken from the iterator is only type-checked, measured and installed as the current chunk
+    cnc = pyx.func('Tokenizer._next_char')
+    allowed = [
+        r'^(?:self\.cur_chunk|chunk_obj)\s*=\s*(?:next\(self\.chunk_iter,\s*None\)|self\.chunk_iter\(FILE_BUFFER\)|chunk_obj)$',
+        r'^if\s+chunk_obj\s+is\s+None\s*:$',
+        r'^if\s+isinstance\(chunk_obj,\s*bytes\)\s*:$',
+        r'^(?:if|elif)\s+type\((?:chunk_obj|self\.cur_chunk)\)\s+is(?:\s+not)?\s+str\s*:$',
+        r'^if\s+len\(\s*(?:<str>)?\s*chunk_obj\)\s*>\s*0\s*:$',
+        r'^self\.chunk_buf\s*=\s*<const uchar \*>\s*PyUnicode_AsUTF8AndSize\(self\.cur_chunk,\s*&self\.chunk_size\)$',
+        r"^raise ValueError\('Expected string, got '\s*\+\s*type\(self\.cur_chunk\)\.__name__\)$",
+        r'^cdef\s+(?:object|str)\s+\w+$',
+    ]
+    n_chunk_lines = 0
+    for ln in cnc.body:
+        if not re.search(r'\bchunk_obj\b|\bself\.cur_chunk\b', ln.text):
+            continue
+        n_chunk_lines += 1
+        ok = any(re.match(a, ln.text.strip()) for a in allowed)
+        content_op = re.search(r'\[[^\]]*:[^\]]*\]|\.(?:startswith|endswith|replace|strip|lstrip|rstrip|removeprefix|removesuffix|translate|find|index|split)\(|(?:==|!=)\s*[\'"]', ln.text) is not None
+        if not ok and not content_op:
+            ctx.shape('C03.K8', False, None, type('PyxLine', (), {'lineno': ln.lineno})(), f'Cython _next_char line `{ln.text.strip()[:70]}` is not one of the enumerated chunk-handling lines', file=pyx.relpath,
+                      func='Tokenizer._next_char', text=f'_next_char chunk use: {ln.text.strip()[:50]}')
+            continue
+        ctx.check('C03.K8', ok, None, type('PyxLine', (), {'lineno': ln.lineno})(), f'Cython _next_char does something with the loaded chunk other than checking its type / length and installing it: `{ln.text.strip()[:70]}` '
+                  '(content-dependent handling at load time makes chunk boundaries observable)', file=pyx.relpath, func='Tokenizer._next_char', text=f'_next_char chunk use: {ln.text.strip()[:50]}')
+    if n_chunk_lines < 6:
+        raise AnalysisError(f'Cython _next_char: only {n_chunk_lines} lines mention the loaded chunk (confirmed by hand: 10)')
+
 
 def _guarded_by_nonstr(mod: Any, n: ast.AST) -> bool:
     p = mod.parents.get(n)
@@ -547,6 +575,7 @@ def _guarded_by_nonstr(mod: Any, n: ast.AST) -> bool:
 
 
 MUTANTS = [
+    {'id': 'cython_refill_strips_bom', 'file': '_tokenizer.pyx', 'find': "            if len(<str>chunk_obj) > 0:\n                self.cur_chunk = chunk_obj", 'replace': "            if self.line_num == 1 and (<str>chunk_obj).startswith('\\uFEFF'):\n                chunk_obj = (<str>chunk_obj)[1:]\n            if len(<str>chunk_obj) > 0:\n                self.cur_chunk = chunk_obj", 'expect': 'C03.K8'},
     {'id': 'expect_block_without_append', 'file': 'keyvalues.py', 'find': "                    block_line = BLOCK_LINE_EXPECT\n                    can_flag_replace = False\n                    cur_block_contents.append(keyvalue)\n", 'replace': "                    block_line = BLOCK_LINE_EXPECT\n                    can_flag_replace = False\n", 'expect': 'C03.K5'},
     {'id': 'flag_replace_unguarded_index', 'file': 'keyvalues.py', 'find': "                            can_flag_replace and\n                            cur_block_contents and\n                            cur_block_contents[-1]._real_name == token_value and\n                            cur_block_contents[-1].has_children()", 'replace': "                            can_flag_replace and\n                            cur_block_contents[-1]._real_name == token_value and\n                            cur_block_contents[-1].has_children()", 'expect': 'C03.K5'},
     {'id': 'single_block_unguarded_root', 'file': 'keyvalues.py', 'find': "                    if not root._value:\n                        raise tokenizer.error('The block was disabled by its [flag], there is nothing to return.')\n", 'replace': "", 'expect': 'C03.K5'},
